@@ -69,6 +69,36 @@ theorem fresh_results_share_nothing (e : Entry) (_he : e ∈ table) (_hc : cover
       (∀ a o f b, D a → σ'.heap a = some o → tainted e.taint f = false → o f = .ref b → D b) :=
   wellFormed_result_fresh e.taint e.nvars e.prog x ht σ σ' hlog hex
 
+/-! ### consequences used by C02 (`hFrame` of Props/C02.lean for the reducer / view layer)
+
+A session-local step of an engine is a sequence of reducer and view calls routed by the dispatchers.  For that
+layer the frame hypothesis of `C02.schedule_independent` is a corollary of the discipline: a call writes NO
+object that existed before it — not the repository's parsed specs, not the component objects built from them,
+not any other engine's store. -/
+
+/-- whatever set of objects `shared` existed before a reducer or view call (the repository's specs, other
+    engines' stores and components, module-level data …), the call leaves every one of them exactly as it was,
+    at every point of the call -/
+theorem reducer_calls_leave_shared_objects_unchanged (e : Entry) (he : e ∈ table) (hc : covered e = true)
+    (σ σ' : State) (hlog : σ.log = []) (hr : Reach e.prog σ σ')
+    (shared : Addr → Prop) (hshared : ∀ a, shared a → σ.heap a ≠ none) :
+    ∀ a, shared a → σ'.heap a = σ.heap a := by
+  intro a ha
+  cases h : σ.heap a with
+  | none => exact absurd h (hshared a ha)
+  | some o => exact (methods_never_write_preexisting_objects e he hc σ σ' hlog hr).1 a o h
+
+/-- two calls made one after the other on disjoint sets of arguments do not see each other: the second call
+    starts from a heap in which everything the first call was given is unchanged -/
+theorem consecutive_calls_do_not_interfere (e₁ e₂ : Entry) (h₁ : e₁ ∈ table) (h₂ : e₂ ∈ table)
+    (c₁ : covered e₁ = true) (c₂ : covered e₂ = true)
+    (σ σ₁ σ₂ : State) (hlog : σ.log = []) (r₁ : Reach e₁.prog σ σ₁)
+    (r₂ : Reach e₂.prog { σ₁ with log := [] } σ₂) :
+    ∀ a o, σ.heap a = some o → σ₂.heap a = some o := by
+  intro a o h
+  have s₁ := (methods_never_write_preexisting_objects e₁ h₁ c₁ σ σ₁ hlog r₁).1 a o h
+  exact (methods_never_write_preexisting_objects e₂ h₂ c₂ { σ₁ with log := [] } σ₂ rfl r₂).1 a o s₁
+
 /-! ### the checker rejects what it should, and the theorem is not vacuous -/
 
 /-- a reducer that assigns to a field of the state it was given: rejected -/
